@@ -39,6 +39,11 @@ META = dict(
          "real sending side - the task's kicker or TaskiqMessage + the broker's own formatter (InMemoryBroker default / "
          "await_inplace, Proxy / JSON formatter, JSON / pickle serializer) -, the executions writing into nested "
          "containers of what they received; "
+         "some holding ONE object at several positions (the same str / list / dict - tuple / dataclass instance on the "
+         "sending side - twice inside an argument at depth 1-2, a label value or key that is the string argument, the "
+         "task id repeated as label and argument; built from one variable, interned, or equal but separate as control), "
+         "2-5 messages of one layout with different strings through one broker / formatter / serializer object (pickle, "
+         "a JSONSerializer set by hand, the default; set before or after the Receiver is built); "
          "non-trivial iff >= 2 "
          "messages and some resolver sub-context (use_cache=False or nested dependency) of an execution starts its "
          "traversal after another execution wrote its Context into the broker's dict; distinct by case content",
